@@ -9,7 +9,7 @@ namespace jv {
 
 struct SampleRun {
     RunEnv& env; W w; Rep& R; int view; const Plan& plan;
-    std::vector<GTv> gts;
+    std::vector<GTv> gts; Bn prev_exponent = Bn::sub(Bn(1).shl(256), Bn(1));
     SampleRun(RunEnv& e, const Plan& p) : env(e), w(e), R(*e.rep), view(e.view), plan(p) {}
 
     void push(size_t n, const Bn& v) { std::vector<uint8_t> b(n); v.to_le(b.data(), n); env.stream.push(n, b); }
@@ -154,6 +154,15 @@ struct SampleRun {
         Bn rec = Bn(d[0]); rec = Bn::add(rec, Bn::mul(Bn(d[1]), K().absx)); rec = Bn::add(rec, Bn::mul(Bn(d[2]), K().x2)); rec = Bn::add(rec, Bn::mul(Bn(d[3]), K().x3));
         env.check(Bn::mod(rec, K().r) == Bn::mod(k, K().r), "C07", "decomposition:recombines", "base-|x| digits of " + k.hexstr() + " do not recombine to it modulo r");
         if (k < K().r) for (int i = 0; i < 4; i++) env.check(Bn(d[i]) < K().absx, "C07", "decomposition:digit-range", "a digit of the decomposition of a reduced exponent is >= |x|");
+        {   // the same decomposition into an object that held the digits of the previous exponent of this history
+            uint64_t d2[4]; uint8_t kp[32]; prev_exponent.to_le(kp, 32); R.jv_decompose_x_reuse(d2, kp, k32); prev_exponent = k;
+            for (int i = 0; i < 4; i++) env.check(d2[i] == d[i], "C07", "decomposition:recombines", "decomposing " + k.hexstr() + " into an object that held an earlier decomposition gives other digits than into a fresh one");
+            // the division-free routine at the exponent widths it is a template over (64..320 bits), exponent objects with dirty padding
+            static const int widths[] = {64, 128, 192, 256, 320}; int wd = widths[(size_t) (k.low64() ^ (uint64_t) env.step) % 5]; uint8_t k40[40]; memset(k40, 0, 40);
+            Bn kw = wd >= 256 ? k : Bn::mod(k, Bn(1).shl(wd)); kw.to_le(k40, 40); if (wd == 320) k40[39] = 0;   // (320-bit: upper 64 bits stay zero here; a^k only needs k mod r anyway)
+            GTv nw; R.jv_gt_pow_nodiv_width(nw.b, a.b, k40, wd); env.lib_calls++;
+            env.check(w.ct(nw) == w.ct(w.gtpow(a, kw)), "C07", "exponentiation:value", strf("division-free exponentiation with a %d-bit exponent object != a^k by generic square-and-multiply", wd));
+        }
         GTv dbl, neg, prod, one = w.gtone(); env.lib_calls += 3;
         if (inplace) { memcpy(dbl.b, a.b, sizeof(dbl.b)); R.jv_gt_double(view, dbl.b, dbl.b); } else { R.jv_gt_double(view, dbl.b, a.b); }
         env.check(w.ct(dbl) == w.ct(w.gtmul(a, a)), "C07", "squaring:value", "gt_double(a) != a*a");
